@@ -1,6 +1,7 @@
 """C10 - total error contract; silent mode skips unsupported statements.
 Spec: Pipeline.tla (OutcomeInContract, SilentSkipEqualsRemoval; single-run behaviours replayed) + Contract.tla (trace validation of
 arbitrary strings: TLC does not generate the text, it decides every recorded execution)."""
+from harness import REPO as _REPO
 import multiprocessing as mp
 import os
 import random
@@ -14,8 +15,8 @@ def _mut_chunk(jobs):
     import warnings
     os.chdir("/tmp")
     warnings.simplefilter("ignore")
-    if "/repo" not in sys.path:
-        sys.path.insert(0, "/repo")
+    if _REPO not in sys.path:
+        sys.path.insert(0, _REPO)
     import logging
     logging.disable(logging.CRITICAL)
     from sqllineage.utils.helpers import split
